@@ -16,7 +16,8 @@ EXPLANATION = ("Decided from the call graph and MIR of BasicCreator: (R1) in eve
                "extra packs) is not reachable from a manifest write, hence the entry-point file never appears before the pack files it "
                "refers to; (R4) close_file takes Box<Self>: a write after persist does not type-check (compile-fail witness with a "
                "compiling twin). POSIX rename atomicity is assumed; behaviour at every crash offset is not explored."
-               " (R5) every BufWriter built in the creator reaches flush()/into_inner() on every successful path (an error in the implicit flush of Drop is discarded).")
+               " (R5) every BufWriter built in the creator reaches flush()/into_inner() on every successful path (an error in the implicit flush of Drop is discarded)."
+               ' Added later: (R6) errors of the worker threads reach finalize; (R7) every direct Write::write uses the count it returns or hands the Result back.')
 ASSUMPTIONS = ["rename(2) is atomic within a file system; crash = process death (no fsync needed)", "tempfile::NamedTempFile::persist renames over the destination",
                "the call graph over-approximates dynamic dispatch (all impls of a trait method)"]
 
